@@ -120,6 +120,11 @@ func cmdRun(prop, tier, only string, verbose bool, workers int, solverBin string
 		return 3
 	}
 	tc := tierConfig(tier)
+	if v := os.Getenv("VERIF_TIMEOUT_MS"); v != "" {
+		if n, err := strconv.Atoi(v); err == nil {
+			tc.TimeoutMs = n
+		}
+	}
 	if v := os.Getenv("VERIF_DEADLINE_S"); v != "" {
 		if n, err := strconv.Atoi(v); err == nil {
 			tc.Deadline = time.Duration(n) * time.Second
